@@ -162,8 +162,11 @@ impl<E: Elem + Clone + Default + std::fmt::Debug> Pool<E> {
             // ---------------------------------------------------------- construction
             0..=7 => {
                 let n = rng.below(MAXLEN + 1);
-                let how = rng.below(6);
+                let how = rng.below(9);
                 let a = match how {
+                    6 => arr_from_builder_extend::<E>(n),
+                    7 => arr_from_intrusive_extend::<E>(n),
+                    8 => arr_from_builder_positions::<E>(n),
                     0 => arr_new::<E>(n),
                     1 => arr_default::<E>(n),
                     2 => arr_from_gen_ref::<E>(n),
